@@ -10,7 +10,6 @@ use crate::generators::{self as g, ConfigSpec, harvest};
 use crate::oracle::tokens::{TokViolation, check_tokens, kind_label};
 
 pub const KF_ET_AL: &str = "KF-C02-et-al-word-with-space";
-pub const KF_TYPST_ORDER: &str = "KF-C02-typst-token-order";
 pub const KF_WIKILINK: &str = "KF-C02-markdown-wikilink-token-order";
 
 fn markdown_based(lang: &str) -> bool {
@@ -73,10 +72,6 @@ pub fn test_case_mode(case: &DocCase, ctx: &mut CaseCtx, strict: bool) -> Result
             }
         }
         if !strict && v.clause == "order" {
-            if case.fe.lang == "typst" {
-                ctx.known(KF_TYPST_ORDER);
-                continue;
-            }
             if markdown_based(&case.fe.lang) && case.text.contains("[[") {
                 ctx.known(KF_WIKILINK);
                 continue;
@@ -125,7 +120,6 @@ pub fn run(run: &mut Run) {
     }
     if !run.strict {
         for (kf, lang, text) in [
-            (KF_TYPST_ORDER, "typst", "#let f(x) = [I've got #x] "),
             (KF_WIKILINK, "markdown", "[[a b c|]] and also\n"),
         ] {
             if run.known.get(kf).is_some() {
